@@ -37,9 +37,11 @@ type WSpec struct {
 
 // Plan is a C02 plan.
 type Plan struct {
-	Init     int     `json:"init"`
-	Max      int     `json:"max"`
-	Gap      int     `json:"gap"`
+	Init int `json:"init"`
+	Max  int `json:"max"`
+	Gap  int `json:"gap"`
+	// CfgStyle: how the options reach the effective configuration (see historyOptions)
+	CfgStyle int     `json:"cfgstyle,omitempty"`
 	Types    int     `json:"types"`
 	IDs      int     `json:"ids"`
 	Writers  [][]WOp `json:"writers"`
@@ -64,6 +66,11 @@ func Gen(t *rapid.T) Plan {
 		p.Init = rapid.IntRange(1, 8).Draw(t, "init")
 		p.Max = rapid.IntRange(p.Init, 4*p.Init).Draw(t, "max")
 		p.Gap = rapid.IntRange(0, p.Init-1).Draw(t, "gap")
+
+		if rapid.IntRange(0, 3).Draw(t, "cfgalt") == 0 {
+			p.Max = p.Init
+			p.CfgStyle = rapid.IntRange(1, 2).Draw(t, "cfgstyle")
+		}
 	}
 
 	p.Types = rapid.IntRange(1, 2).Draw(t, "types")
@@ -119,7 +126,7 @@ func Run(p Plan) (v hk.Verdict) {
 func runBubble(p Plan) (v hk.Verdict) {
 	ctx, cancel := context.WithCancel(context.Background())
 
-	st := sim.NewNamespaced(inmem.WithHistoryInitialCapacity(p.Init), inmem.WithHistoryMaxCapacity(p.Max), inmem.WithHistoryGap(p.Gap))
+	st := sim.NewNamespaced(historyOptions(p.Init, p.Max, p.Gap, p.CfgStyle)...)
 	s := sim.NewSched(st)
 
 	// per-collection commit positions
@@ -685,4 +692,19 @@ func (w *watcher) check(p Plan, commits []model.Commit, col []int, _ []sim.Hando
 	}
 
 	return ""
+}
+
+// historyOptions builds the inmem options for the effective (init, max, gap) configuration. style 0 gives them in the
+// natural way; styles 1 and 2 (only when init == max) reach the same effective configuration through the options'
+// own normalisation: 1 = a smaller max first, then the initial capacity (which raises max); 2 = a larger initial
+// capacity first, then max (which lowers the initial capacity).
+func historyOptions(init, maxCap, gap, style int) []inmem.StateOption {
+	switch {
+	case style == 1 && init == maxCap && init > 1:
+		return []inmem.StateOption{inmem.WithHistoryMaxCapacity(init / 2), inmem.WithHistoryInitialCapacity(init), inmem.WithHistoryGap(gap)}
+	case style == 2 && init == maxCap:
+		return []inmem.StateOption{inmem.WithHistoryInitialCapacity(2*maxCap + 3), inmem.WithHistoryMaxCapacity(maxCap), inmem.WithHistoryGap(gap)}
+	}
+
+	return []inmem.StateOption{inmem.WithHistoryInitialCapacity(init), inmem.WithHistoryMaxCapacity(maxCap), inmem.WithHistoryGap(gap)}
 }
